@@ -422,7 +422,10 @@ theorem members_lemma (henv : EnvOK env) (td : TypeDef) (hasTn : Bool) :
         (∀ c f, Conds.has conds' c f ↔ Conds.has conds c f ∨ ∃ s ∈ rest, FragPair ft td s c f) ∧
         (∀ d ∈ st.decls, d ∈ st'.decls) ∧ EnumInv st' ∧
         ((∃ s ∈ rest, isFieldSel s = false) → td.isObject = false → hasTn = true) ∧
-        ((∀ d ∈ st'.decls, d ∈ env) → Forall2 (MemberGood S env frag td) rest es) := by
+        ((∀ d ∈ st'.decls, d ∈ env) → Forall2 (MemberGood S env frag td) rest es ∧
+          (FragNames ft (env.map Decl.name) → enumConstsOK S = true →
+            (∀ e ∈ es, isExported (fieldName e.key) = true ∧ tyOK (env.map Decl.name) e.ty = true) ∧
+            (StOK (env.map Decl.name) st → StOK (env.map Decl.name) st'))) := by
   intro rest
   induction rest with
   | nil =>
@@ -432,7 +435,8 @@ theorem members_lemma (henv : EnvOK env) (td : TypeDef) (hasTn : Bool) :
     injection hgen with h1 h2
     injection h2 with h2 h3
     subst h1 h2 h3
-    refine ⟨[], by simp, ?_, fun d hd => hd, hinv, ?_, fun _ => .nil⟩
+    refine ⟨[], by simp, ?_, fun d hd => hd, hinv, ?_,
+      fun _ => ⟨.nil, fun _ _ => ⟨fun e he => (nomatch he), fun h => h⟩⟩⟩
     · intro c f; simp
     · rintro ⟨s, hs, _⟩; cases hs
   | cons s rest ih =>
@@ -479,7 +483,17 @@ theorem members_lemma (henv : EnvOK env) (td : TypeDef) (hasTn : Bool) :
         · exact htn1 hf' hobj
         · exact htn ⟨s', hs', hf'⟩ hobj
       · intro henv'
-        exact .cons (hgood1 (fun d hd => henv' d (hmono d hd))) (hall henv')
+        obtain ⟨hg1, hs1⟩ := hgood1 (fun d hd => henv' d (hmono d hd))
+        obtain ⟨hg2, hs2⟩ := hall henv'
+        refine ⟨.cons hg1 hg2, ?_⟩
+        intro hfn hec
+        obtain ⟨hx1, ht1, hst1⟩ := hs1 hfn hec
+        obtain ⟨hes2, hst2⟩ := hs2 hfn hec
+        refine ⟨?_, fun h => hst2 (hst1 h)⟩
+        intro e' he'
+        rcases List.mem_cons.mp he' with rfl | he'
+        · exact ⟨hx1, ht1⟩
+        · exact hes2 e' he'
 
 /-- `generateType` at a composite type, for every selection set inside the envelope. -/
 theorem level_statement (hS : schemaOK S = true) (henv : EnvOK env) (hfrag : FragHyp S ft env frag) :
@@ -530,7 +544,14 @@ theorem level_statement (hS : schemaOK S = true) (henv : EnvOK env) (hfrag : Fra
         subst h1 h2
         refine ⟨hmono, hinv', ?_⟩
         intro henv'
-        exact ⟨_, rfl, level_good hS hfrag hlk' (hall henv') hconds' hok (fun ho hex => htn hex ho) (Or.inl ⟨hempty, rfl⟩)⟩
+        obtain ⟨hall1, hall2⟩ := hall henv'
+        refine ⟨⟨_, rfl, level_good hS hfrag hlk' hall1 hconds' hok (fun ho hex => htn hex ho) (Or.inl ⟨hempty, rfl⟩)⟩, ?_⟩
+        intro hfn hec
+        obtain ⟨hes, hst⟩ := hall2 hfn hec
+        obtain ⟨hf1, hf2⟩ := level_struct_ok hall1 hok hes
+        refine ⟨?_, hst⟩
+        rw [tyOK_ptrUnless]
+        simp [tyOK, hf1, hf2]
       · simp only [hempty, Bool.false_eq_true, if_false] at hgen
         injection hgen with hgen
         injection hgen with h1 h2
@@ -544,8 +565,22 @@ theorem level_statement (hS : schemaOK S = true) (henv : EnvOK env) (hfrag : Fra
               (actionsOf S td ((typenameFieldOf subs).getD []) conds) ∈ env := henv' _ (by simp)
           have hlook := henv _ hsel
           simp only [Decl.name] at hlook
-          refine ⟨_, rfl, level_good hS hfrag hlk' (hall (fun d hd => henv' d (by simp [hd]))) hconds' hok
-            (fun ho hex => htn hex ho) (Or.inr ⟨by simpa using hempty, _, rfl, hlook⟩)⟩
+          obtain ⟨hall1, hall2⟩ := hall (fun d hd => henv' d (by simp [hd]))
+          refine ⟨⟨_, rfl, level_good hS hfrag hlk' hall1 hconds' hok
+            (fun ho hex => htn hex ho) (Or.inr ⟨by simpa using hempty, _, rfl, hlook⟩)⟩, ?_⟩
+          intro hfn hec
+          obtain ⟨hes, hst⟩ := hall2 hfn hec
+          obtain ⟨hf1, hf2⟩ := level_struct_ok hall1 hok hes
+          constructor
+          · rw [tyOK_ptrUnless]
+            simp only [tyOK, List.contains_iff_mem]
+            exact List.mem_map.mpr ⟨_, hsel, rfl⟩
+          · intro h0 d hd
+            simp only [List.mem_append, List.mem_singleton] at hd
+            rcases hd with hd | rfl
+            · exact hst h0 d hd
+            · simp only [declOK, Bool.and_eq_true]
+              exact ⟨⟨hf1, hf2⟩, level_actions_compile hall1 hconds' hok (fun ho hex => htn hex ho)⟩
 
 end
 
